@@ -159,12 +159,19 @@ def run(R):
         parses = [b["id"] for b in fd.blocks if b["term"]["k"] == "call" and not b["cleanup"] and (b["term"]["ncallee"] or "").endswith("rmp_serde::decode::from_slice")
                   and "DataMapLevel" in (b["term"].get("callee") or "") + " ".join(fd.locals.get(str(b["term"]["d"][0]), "") for _ in [0])]
         fetches = [b["id"] for b in fd.blocks if b["term"]["k"] == "call" and callee_matches(b["term"], [CL + "fetch_from_data_map"])]
-        ok = bool(tr_first.accept) and bool(oks) and bool(fetches)
+        # the function's Ok results: the `Ok(data)` literal, or the last fetch's result handed on (`self.fetch_from_data_map(&first).await`
+        # as the tail expression; loaded in branch form)
+        oks = sorted(set(oks) | set(RetSink("Ok", computed=True).blocks(fd)))
+        ok = bool(tr_first.accept) and bool(tr_add.accept) and bool(oks) and bool(fetches)
         if ok:
-            # after a fetch, Ok(data) only on the First side; re-parse only on the Additional side
+            # Stated on paths from the entry, so that it holds for either loop shape (fetch, then dispatch on the level — or dispatch, fetch
+            # inside the Additional arm, and the First map fetched behind the loop): data is returned only on a path that met `First`
+            # (no Ok with the First-accepting edges cut), a fetched level is re-parsed only on a path that met `Additional`, the re-parse
+            # follows a fetch, and some fetch lies on the way to every Ok.
             post = g.reach(tuple(fetches))
             reparse = [p for p in parses if p in post]
-            ok = bool(reparse) and not (set(oks) & g.reach(tuple(fetches), cut=tr_first.accept)) and not (set(reparse) & g.reach(tuple(fetches), cut=tr_add.accept))
+            ok = bool(reparse) and not (set(oks) & g.reach((0,), cut=tr_first.accept)) and not (set(reparse) & g.reach((0,), cut=tr_add.accept)) \
+                and not (set(oks) & g.reach((0,), avoid=set(fetches)))
         if not ok:
             R.viol("C14.levels.reader", "level-dispatch", "fetch_from_data_map_chunk must return the data on First and re-parse a data map on Additional", fd, fd.lines[0])
         R.inst("C14.levels.reader", "K7 table agreement", "reader: First → return data; Additional → parse next level", n, ok)
@@ -173,7 +180,20 @@ def run(R):
             encb = [b for b in pk.blocks if b["term"]["k"] == "call" and not b["cleanup"] and callee_matches(b["term"], [ENC])]
             if encb:
                 earg = op_local(encb[0]["term"]["args"][0])
-                sers = [b for b in pk.blocks if b["term"]["k"] == "call" and not b["cleanup"] and (b["term"]["ncallee"] or "") == "<%s as serde::ser::Serialize>::serialize" % CH]
+                def _ser_of_chunk(b):
+                    t = b["term"]
+                    if (t["ncallee"] or "") == "<%s as serde::ser::Serialize>::serialize" % CH:
+                        return True
+                    # the serialisation moved into a generic helper (`to_msgpack_bytes::<T>(&chunk, ..)`, inlined here): the call is the
+                    # unresolved trait method; what is serialised is decided by the type of the value the first argument refers to
+                    if not (t.get("ngen") or t["ncallee"] or "").endswith("serde::ser::Serialize::serialize") or not t["args"]:
+                        return False
+                    l0 = op_local(t["args"][0])
+                    if l0 is None:
+                        return False
+                    tys = {pk.locals.get(str(x), "").replace("&", "").replace("mut ", "").strip() for x in backward(pk, l0, through_calls=False)}
+                    return CH in tys
+                sers = [b for b in pk.blocks if b["term"]["k"] == "call" and not b["cleanup"] and _ser_of_chunk(b)]
                 wl = 0
                 ta_all = Taint(pk, through="all")
                 for sb in sers:
